@@ -308,6 +308,15 @@ func pathDepth(v ssa.Value, d int) string {
 	case *ssa.TypeAssert:
 		return pathDepth(x.X, d+1) + ".(" + types.TypeString(x.AssertedType, func(p *types.Package) string { return p.Name() }) + ")"
 	case *ssa.BinOp:
+		// x+0, 0+x, x-0 (a constant offset parameter of an inlined helper) name x itself
+		if x.Op == token.ADD || x.Op == token.SUB {
+			if z, ok := ConstInt(x.Y); ok && z == 0 {
+				return pathDepth(x.X, d+1)
+			}
+			if z, ok := ConstInt(x.X); ok && z == 0 && x.Op == token.ADD {
+				return pathDepth(x.Y, d+1)
+			}
+		}
 		return "(" + pathDepth(x.X, d+1) + " " + x.Op.String() + " " + pathDepth(x.Y, d+1) + ")"
 	case *ssa.Phi:
 		// a phi whose (non-self) operands are all the same value is that value; any other phi is named by identity
